@@ -50,7 +50,7 @@ PROPS["C08"] = dict(
         "launched only for a twin-less task and registered both ways, the loop exits only when `pending` is "
         "empty, and the thread retrier re-raises after retries+1 attempts. These hold for every schedule of "
         "completions, including the same-round interleavings that tests with real timers never hit."
-            " Also: the original<->backup map is only ever changed symmetrically (MAP-TWIN-SYM-1), the batch refill sits between the wait and the next loop test, and the user's `retries` option reaches the retrier unmodified."
+            " Also: the original<->backup map is only ever changed symmetrically (MAP-TWIN-SYM-1), the batch refill sits between the wait and the next loop test, and the user's `retries` option reaches the retrier unmodified; the superseded check guards the re-raise as well as the emission (a twin handled earlier in the same round is not handled again)."
     ),
     note="Does not decide timing thresholds of should_launch_backup, hangs inside asyncio, or IO fault behaviour of zarr/fsspec.",
     design="DESIGN.md §4 C08",
@@ -139,7 +139,7 @@ PROPS["C12"] = dict(
         "array the primitive created from the (shape, dtype, chunks) triple they computed, with shape derived "
         "from those chunks; multiple outputs are paired positionally; and no code swaps the backing array "
         "afterwards (the one site that does, _store_array, is known finding F5)."
-            " Identity-copy operations (BlockView, store) declare chunks derived from the source's actual block sizes (.chunks), never the nominal chunk size."
+            " Identity-copy operations (BlockView, store) declare chunks derived from the source's actual block sizes (.chunks), never the nominal chunk size. A dtype/chunks/shape declared for an operation from one of its own operands is read from the operand as passed, not from a local alias taken before the operand variable was rebound (META-STALE-1)."
     ),
     note=(
         "Does NOT decide the second half — that every block a function returns has the shape of its region, "
@@ -239,7 +239,7 @@ PROPS["C06"] = dict(
         "did not create; it writes only its own region with plain stores; random blocks are keyed by "
         "root seed + block offset, both task parameters; arrays are created open-or-create and nothing "
         "reachable from a task deletes data. Then any order, repetition or placement yields the same chunks."
-            " The process executor ships each task with its own call's serialised function/input/kwargs, with no state shared between calls (PICKLE-PAIR-1)."
+            " The process executor ships each task with its own call's serialised function/input/kwargs, with no state shared between calls; the input shipped is the per-task element of the batch and the function is the factory's own argument (PICKLE-PAIR-1)."
     ),
     note="User-supplied callables are outside the closure; bit-identical NumPy kernels across processes, cloudpickle fidelity and zarr write atomicity are assumed.",
     design="DESIGN.md §4 C06",
